@@ -298,3 +298,107 @@ theorem interpField_marshal (fac : Factory) (m arch : Nat) (f : Field) (b : Fiel
       · simp [fieldBack, hb, hz, readAs, hk, projF]
 
 end Fit.E2E
+
+namespace Fit.E2E
+open Fit.Gen Fit.Gen.DecApi Fit.Value Fit.Utf8 Fit.DecApi Fit.Crc Fit.Msg
+
+/-! ### developer fields -/
+
+/-- `decodeDevField` without the reading -/
+def interpDev (arch : Nat) (dd : DevDef) (fdsc : Desc) (b : List Nat) : Res (Option DDev) :=
+  if !validBaseType fdsc.bt then .err .baseType else
+  let bsz := btSize fdsc.bt
+  ((if dd.size > bsz then (modP dd.size bsz).bind (fun r => .ok (decide (r = 0))) else .ok false : Res Bool)).bind fun arr =>
+    if dd.size = 0 then .ok none else
+    let rs := readShape dd.size fdsc.bt (decide (fdsc.bt &&& baseTypeNumMask = profileBool)) arr
+    (valueOfBytes b arch rs.1 rs.2.1 rs.2.2 (decide (fdsc.bt = btString))).bind fun v =>
+      let v := if rs.1 ≠ fdsc.bt then convertBytesToValue (sliceUint8Of v) arch fdsc.bt else v
+      .ok (some ⟨dd.num, dd.idx, v⟩)
+
+def afterDev (dd : DevDef) (s : St) : Option DDev → St
+  | none => s
+  | some _ => adv s dd.size
+
+theorem decodeDevField_eq (d : MesgDef) (dd : DevDef) (fdsc : Desc) (s : St) (hk : dd.size < 256) (hl : dd.size ≤ s.rest.length) :
+    decodeDevField d dd fdsc s =
+      (interpDev d.arch dd fdsc (s.rest.take dd.size)).bind (fun r => .ok (r, afterDev dd s r)) := by
+  have hkb : dd.size ≤ reservedbuf := by have : reservedbuf = 765 := rfl; omega
+  unfold decodeDevField interpDev
+  cases hv : validBaseType fdsc.bt
+  · rfl
+  · simp only [Bool.not_true, Bool.false_eq_true, ↓reduceIte, bind, Res.bind, pure]
+    cases harr : (if dd.size > btSize fdsc.bt then (modP dd.size (btSize fdsc.bt)).bind (fun r => Res.ok (decide (r = 0))) else Res.ok false : Res Bool) with
+    | err e => simp only [Res.bind] at harr ⊢; rw [harr]
+    | panic => simp only [Res.bind] at harr ⊢; rw [harr]
+    | hang => simp only [Res.bind] at harr ⊢; rw [harr]
+    | ok arr =>
+      simp only [Res.bind] at harr ⊢
+      rw [harr]
+      simp only
+      by_cases hz : dd.size = 0
+      · simp [hz, afterDev]
+      · simp only [hz, if_false]
+        rw [readValue_ok _ _ _ _ _ _ s hkb hl]
+        simp only [Res.bind]
+        cases valueOfBytes (s.rest.take dd.size) d.arch
+            (readShape dd.size fdsc.bt (decide (fdsc.bt &&& baseTypeNumMask = profileBool)) arr).1
+            (readShape dd.size fdsc.bt (decide (fdsc.bt &&& baseTypeNumMask = profileBool)) arr).2.1
+            (readShape dd.size fdsc.bt (decide (fdsc.bt &&& baseTypeNumMask = profileBool)) arr).2.2 (decide (fdsc.bt = btString)) <;> rfl
+
+def projD (d : DDev) : NDev := ⟨d.num, d.idx, d.value⟩
+
+/-- an aligned value has a valid base type -/
+theorem align_valid (v : Value) (bt : Nat) (hal : align v bt = true) : btValid bt = true := by
+  cases v <;> simp only [align, beq_iff_eq, Bool.or_eq_true] at hal
+  case invalid => cases hal
+  all_goals
+    first
+    | obtain rfl := hal
+    | obtain rfl | rfl := hal
+    | obtain ((rfl | rfl) | rfl) | rfl := hal
+  all_goals decide
+
+/-- **a validated developer field through the wire**, read under a field description of base type `bt` -/
+theorem interpDev_marshal (arch : Nat) (d : DevField) (fdsc : Desc) (bs : List Nat)
+    (hwf : wf d.value = true) (hal : align d.value fdsc.bt = true)
+    (hsz : size d.value ≤ 255) (hm : marshal d.value arch = some bs) :
+    ∃ r, interpDev arch ⟨d.num, size d.value % 256, d.devIdx⟩ fdsc bs = .ok r ∧
+      r.map projD = (if size d.value = 0 then none else
+        some ⟨d.num, d.devIdx, reread fdsc.bt (decide (fdsc.bt &&& baseTypeNumMask = profileBool)) (inferArray fdsc.bt d.value) d.value⟩) := by
+  have hsize : size d.value % 256 = size d.value := Nat.mod_eq_of_lt (by omega)
+  have hlen : bs.length = size d.value := marshal_length _ _ _ hm
+  have hvalid : btValid fdsc.bt = true := align_valid _ _ hal
+  have hpos : btSize fdsc.bt ≠ 0 := by
+    have : 0 < btSize fdsc.bt := by simpa [btValid] using hvalid
+    omega
+  have harrT : (if size d.value > btSize fdsc.bt then (modP (size d.value) (btSize fdsc.bt)).bind (fun r => Res.ok (decide (r = 0))) else Res.ok false : Res Bool)
+      = .ok (decide (size d.value > btSize fdsc.bt ∧ size d.value % btSize fdsc.bt = 0)) := by
+    by_cases h : size d.value > btSize fdsc.bt
+    · simp [h, modP, hpos, Res.bind]
+    · simp [h]
+  by_cases hz : size d.value = 0
+  · refine ⟨none, ?_, by simp [hz]⟩
+    unfold interpDev
+    simp only [validBaseType, hvalid, Bool.not_true, Bool.false_eq_true, ↓reduceIte, hsize]
+    rw [harrT]
+    simp only [Res.bind, hz, ↓reduceIte]
+  · obtain ⟨hge, _, hnum, hstr⟩ := size_aligned d.value fdsc.bt hal hz
+    have hne : bs ≠ [] := by intro h; rw [h] at hlen; simp at hlen; omega
+    have harr : (if (decide (fdsc.bt = btString) = true ∧ fdsc.bt = btString) then decide (strcount bs > 1)
+        else decide (size d.value > btSize fdsc.bt ∧ size d.value % btSize fdsc.bt = 0)) = inferArray fdsc.bt d.value := by
+      unfold inferArray
+      by_cases hs : fdsc.bt = btString
+      · have hbs : bs = strData d.value := by
+          have := marshal_string_arch d.value arch (hstr hs); rw [this] at hm; exact (Option.some.inj hm).symm
+        simp only [hs, decide_true, and_self, ↓reduceIte, hbs]
+        exact strcount_strData _ (hstr hs) hsz
+      · simp [hs]
+    refine ⟨some ⟨d.num, d.devIdx, reread fdsc.bt (decide (fdsc.bt &&& baseTypeNumMask = profileBool)) (inferArray fdsc.bt d.value) d.value⟩, ?_, by simp [hz, projD]⟩
+    unfold interpDev
+    simp only [validBaseType, hvalid, Bool.not_true, Bool.false_eq_true, ↓reduceIte, hsize]
+    rw [harrT]
+    simp only [Res.bind, hz, ↓reduceIte, readShape, Nat.not_lt.mpr hge, valueOfBytes]
+    rw [harr, unmarshal_reread d.value arch fdsc.bt bs _ _ hwf hal hm (Or.inr hne)]
+    simp
+
+end Fit.E2E
